@@ -148,8 +148,27 @@ fn interpolate(e: &[u64], p: u64, psi2048: u64) -> Vec<i64> {
         .collect()
 }
 
-/// Some(k) with d = k * a exactly, None if no integer polynomial k exists; Err if a is not
-/// invertible modulo the helper primes (inconclusive).
+fn negacyclic_mul_i128(a: &[i64], b: &[i64]) -> Vec<i128> {
+    let n = a.len();
+    let mut acc = vec![0i128; n];
+    for i in 0..n {
+        if a[i] == 0 {
+            continue;
+        }
+        for j in 0..n {
+            let t = a[i] as i128 * b[j] as i128;
+            if i + j < n {
+                acc[i + j] += t;
+            } else {
+                acc[i + j - n] -= t;
+            }
+        }
+    }
+    acc
+}
+
+/// Some(k) with d = k * a exactly (|k| < 2^60, verified in i128), None if no such integer
+/// polynomial exists; Err if a is not invertible modulo the helper primes (inconclusive).
 fn exact_quotient(d: &[i64], a: &[i64]) -> Result<Option<Vec<i64>>, ()> {
     for idx in 0..2 {
         let (p, psi) = ntt_prime(idx);
@@ -160,11 +179,8 @@ fn exact_quotient(d: &[i64], a: &[i64]) -> Result<Option<Vec<i64>>, ()> {
         let ed = evaluate(d, p, psi);
         let q: Vec<u64> = ed.iter().zip(ea.iter()).map(|(x, y)| mulmod(*x, powmod(*y, p - 2, p), p)).collect();
         let k = interpolate(&q, p, psi);
-        if k.iter().any(|x| x.abs() > 1 << 40) {
-            return Ok(None); // not a small integer polynomial: the exact product below would not hold
-        }
-        let back = negacyclic_mul_exact(&k, a);
-        return Ok(if back == d { Some(k) } else { None });
+        let back = negacyclic_mul_i128(&k, a);
+        return Ok(if back.iter().zip(d.iter()).all(|(x, y)| *x == *y as i128) { Some(k) } else { None });
     }
     Err(())
 }
@@ -230,13 +246,48 @@ impl Sub for BabaiLarge {
     }
 }
 
+/// (f, g) sharing a small factor that nearly vanishes at some roots of X^n + 1 (powers of 1 + X,
+/// 1 - X, 1 + X^2, ...): the floating-point quotient of the reduction is then ill-conditioned.
+fn common_factor_pair(n: usize) -> BoxedStrategy<(Vec<i32>, Vec<i32>)> {
+    let factor = prop_oneof![
+        Just(vec![1i64, 1]), Just(vec![1i64, 2, 1]), Just(vec![1i64, 3, 3, 1]), Just(vec![1i64, -1]), Just(vec![1i64, -2, 1]),
+        Just(vec![1i64, 0, 1]), Just(vec![1i64, 1, 1]), Just(vec![1i64, -1, 1]), Just(vec![1i64, 0, 2, 0, 1]),
+    ];
+    let tiny = proptest::collection::vec(-2i64..=2, 1..=4);
+    (factor, tiny.clone(), tiny, 0usize..4)
+        .prop_map(move |(p, a, b, shift)| {
+            let embed = |v: &[i64], sh: usize| {
+                let mut out = vec![0i64; n];
+                for (i, &c) in v.iter().enumerate() {
+                    let j = (i + sh) % (2 * n);
+                    if j < n {
+                        out[j] += c;
+                    } else {
+                        out[j - n] -= c;
+                    }
+                }
+                out
+            };
+            let pe = embed(&p, 0);
+            let f = negacyclic_mul_exact(&pe, &embed(&a, 0));
+            let g = negacyclic_mul_exact(&pe, &embed(&b, shift));
+            (f.iter().map(|&x| x.clamp(-127, 127) as i32).collect(), g.iter().map(|&x| x.clamp(-127, 127) as i32).collect())
+        })
+        .boxed()
+}
+
 fn case_strategy(logn: BoxedStrategy<u32>) -> BoxedStrategy<BabaiCase> {
     logn.prop_flat_map(|l| {
         let n = 1usize << l;
         let kmag = prop_oneof![1 => Just(0i64), 2 => 1i64..=4, 6 => (0u32..=20).prop_map(|b| 1i64 << b)];
-        (small_poly(n), small_poly(n), small_poly(n), small_poly(n), kmag, any::<u64>(), prop_oneof![8 => Just(false), 1 => Just(true)], prop_oneof![12 => Just(false), 1 => Just(true)])
+        // ill-conditioned pairs can cost the big-integer version seconds per case at n >= 512
+        let common_weight = if n >= 512 { 1 } else { 10 };
+        let fg = prop_oneof![40 => (small_poly(n), small_poly(n)), common_weight => common_factor_pair(n)];
+        // (F0, G0): small, or uniform below 2^b
+        let f0bits = prop_oneof![3 => Just(0u32), 2 => 8u32..=22];
+        (fg, small_poly(n), small_poly(n), f0bits, kmag, any::<u64>(), prop_oneof![8 => Just(false), 1 => Just(true)], prop_oneof![12 => Just(false), 1 => Just(true)])
     })
-    .prop_map(|(f, mut g, f0, g0, kmag, kseed, unrelated, zero)| {
+    .prop_map(|((f, mut g), f0, g0, f0bits, kmag, kseed, unrelated, zero)| {
         let n = f.len();
         if f.iter().all(|&x| x == 0) && g.iter().all(|&x| x == 0) {
             g[0] = 1;
@@ -245,6 +296,14 @@ fn case_strategy(logn: BoxedStrategy<u32>) -> BoxedStrategy<BabaiCase> {
         if zero {
             return BabaiCase { f, g, cap_f: vec![0; n], cap_g: vec![0; n] };
         }
+        let (f0, g0): (Vec<i64>, Vec<i64>) = if f0bits == 0 {
+            (f0.iter().map(|&x| x as i64).collect(), g0.iter().map(|&x| x as i64).collect())
+        } else {
+            let lim = 1i64 << f0bits;
+            let mut s = mix(kseed ^ 0xF0);
+            let mut draw = || (0..n).map(|_| { s = mix(s); (s % (2 * lim as u64 + 1)) as i64 - lim }).collect::<Vec<i64>>();
+            (draw(), draw())
+        };
         let mut kmag = kmag;
         loop {
             let mut s = kseed;
@@ -256,11 +315,15 @@ fn case_strategy(logn: BoxedStrategy<u32>) -> BoxedStrategy<BabaiCase> {
                 let k: Vec<i64> = (0..n).map(|_| { s = mix(s); if kmag == 0 { 0 } else { (s % (2 * kmag as u64 + 1)) as i64 - kmag } }).collect();
                 let kf = negacyclic_mul_exact(&k, &f64v);
                 let kg = negacyclic_mul_exact(&k, &g64v);
-                (kf.iter().zip(f0.iter()).map(|(a, b)| a + *b as i64).collect(), kg.iter().zip(g0.iter()).map(|(a, b)| a + *b as i64).collect())
+                (kf.iter().zip(f0.iter()).map(|(a, b)| a + b).collect(), kg.iter().zip(g0.iter()).map(|(a, b)| a + b).collect())
             };
             let max = cf.iter().chain(cg.iter()).map(|x| x.abs()).max().unwrap_or(0);
             if max < (1 << 24) {
                 return BabaiCase { f, g, cap_f: cf.iter().map(|&x| x as i32).collect(), cap_g: cg.iter().map(|&x| x as i32).collect() };
+            }
+            if kmag == 0 {
+                // (F0, G0) alone is too large: fall back to the zero pair
+                return BabaiCase { f, g, cap_f: vec![0; n], cap_g: vec![0; n] };
             }
             kmag /= 2;
         }
@@ -269,6 +332,15 @@ fn case_strategy(logn: BoxedStrategy<u32>) -> BoxedStrategy<BabaiCase> {
 }
 
 fn check_case(c: &BabaiCase, st: &mut Stats) -> Result<(), Fail> {
+    let t0 = std::time::Instant::now();
+    let r = check_case_inner(c, st);
+    if std::env::var("VERIF_C17_TRACE").is_ok() && t0.elapsed().as_secs_f64() > 0.5 {
+        eprintln!("slow case {:.1}s n={} f={:?} g={:?} maxFG={} -> {:?}", t0.elapsed().as_secs_f64(), c.f.len(), &c.f[..c.f.len().min(6)], &c.g[..c.g.len().min(8)], c.cap_f.iter().chain(c.cap_g.iter()).map(|x| x.abs()).max().unwrap_or(0), r.as_ref().err().map(|f| f.key.clone()));
+    }
+    r
+}
+
+fn check_case_inner(c: &BabaiCase, st: &mut Stats) -> Result<(), Fail> {
     let n = c.f.len();
     let in_domain = n >= 2
         && n <= 1024
@@ -284,12 +356,6 @@ fn check_case(c: &BabaiCase, st: &mut Stats) -> Result<(), Fail> {
     }
     let to64 = |v: &Vec<i32>| v.iter().map(|&x| x as i64).collect::<Vec<i64>>();
     let (f, g, cf, cg) = (to64(&c.f), to64(&c.g), to64(&c.cap_f), to64(&c.cap_g));
-    // the 32-bit multi-modular version
-    let pf = Polynomial::new(c.f.clone());
-    let pg = Polynomial::new(c.g.clone());
-    let mut a_f = Polynomial::new(c.cap_f.clone());
-    let mut a_g = Polynomial::new(c.cap_g.clone());
-    let ra = no_panic(|| babai_reduce_i32(&pf, &pg, &mut a_f, &mut a_g)).map_err(|p| Fail::new(format!("babai:i32-panic:{}", panic_site(&p)), format!("babai_reduce_i32 panicked: {}", p)))?;
     // the big-integer version
     let bf = Polynomial::new(c.f.iter().map(|&x| BigInt::from(x)).collect::<Vec<_>>());
     let bg = Polynomial::new(c.g.iter().map(|&x| BigInt::from(x)).collect::<Vec<_>>());
@@ -297,18 +363,45 @@ fn check_case(c: &BabaiCase, st: &mut Stats) -> Result<(), Fail> {
     let mut b_g = Polynomial::new(c.cap_g.iter().map(|&x| BigInt::from(x)).collect::<Vec<_>>());
     let rb = no_panic(|| babai_reduce_bigint(&bf, &bg, &mut b_f, &mut b_g)).map_err(|p| Fail::new(format!("babai:bigint-panic:{}", panic_site(&p)), format!("babai_reduce_bigint panicked: {}", p)))?;
     let big_to_i64 = |p: &Polynomial<BigInt>| -> Option<Vec<i64>> { p.coefficients.iter().map(|x| i64::try_from(x).ok()).collect() };
-    let (af, ag) = (to64(&a_f.coefficients), to64(&a_g.coefficients));
     let (bfv, bgv) = match (big_to_i64(&b_f), big_to_i64(&b_g)) {
         (Some(x), Some(y)) => (x, y),
         _ => return Err(Fail::new("babai:bigint-grows", "the big-integer version returned coefficients beyond 64 bits")),
     };
+    // How large is the integer multiplier k the reduction needs (recovered exactly from the
+    // big-integer version's result)? The 32-bit version carries k in an i32 and k (f, g) in a
+    // 30-bit prime field; ill-conditioned (f, g) need multipliers far beyond that.
+    let k_needed: Option<i64> = {
+        let df: Vec<i64> = cf.iter().zip(bfv.iter()).map(|(x, y)| x - y).collect();
+        let dg: Vec<i64> = cg.iter().zip(bgv.iter()).map(|(x, y)| x - y).collect();
+        let (num, den) = if f.iter().any(|&x| x != 0) { (&df, &f) } else { (&dg, &g) };
+        match exact_quotient(num, den) {
+            Ok(Some(k)) => Some(k.iter().map(|x| x.abs()).max().unwrap_or(0)),
+            _ => None,
+        }
+    };
+    let beyond_i32 = k_needed.map(|k| k >= (1i64 << 29)).unwrap_or(false);
+    let class_key = |plain: &str| if beyond_i32 { "babai:i32-multiplier-beyond-30-bit-field".to_string() } else { plain.to_string() };
+    let k_note = match k_needed {
+        Some(k) => format!("; the multiplier the reduction needs has max |k| = {} (about 2^{:.1})", k, (k.max(1) as f64).log2()),
+        None => String::new(),
+    };
+    // the 32-bit multi-modular version
+    let pf = Polynomial::new(c.f.clone());
+    let pg = Polynomial::new(c.g.clone());
+    let mut a_f = Polynomial::new(c.cap_f.clone());
+    let mut a_g = Polynomial::new(c.cap_g.clone());
+    let ra = no_panic(|| babai_reduce_i32(&pf, &pg, &mut a_f, &mut a_g)).map_err(|p| Fail::new(class_key(&format!("babai:i32-panic:{}", panic_site(&p))), format!("n = {}: babai_reduce_i32 panicked: {} (babai_reduce_bigint returns {}){}", n, p, if rb.is_ok() { "Ok" } else { "Err" }, k_note)))?;
+    let (af, ag) = (to64(&a_f.coefficients), to64(&a_g.coefficients));
     // 1. agreement
-    ensure!(ra.is_ok() == rb.is_ok(), "babai:ok-err-disagree", "n = {}: the 32-bit version returns {} but the big-integer version returns {}", n, if ra.is_ok() { "Ok" } else { "Err" }, if rb.is_ok() { "Ok" } else { "Err" });
+    ensure!(ra.is_ok() == rb.is_ok(), &class_key("babai:ok-err-disagree"), "n = {}: the 32-bit version returns {} but the big-integer version returns {}{}", n, if ra.is_ok() { "Ok" } else { "Err" }, if rb.is_ok() { "Ok" } else { "Err" }, k_note);
     if ra.is_ok() {
         let pos = (0..n).find(|&i| af[i] != bfv[i] || ag[i] != bgv[i]);
-        ensure!(pos.is_none(), "babai:results-differ", "n = {}: the two versions return different reduced pairs (first difference at coefficient {}: F' {} vs {}, G' {} vs {})", n, pos.unwrap_or(0), af[pos.unwrap_or(0)], bfv[pos.unwrap_or(0)], ag[pos.unwrap_or(0)], bgv[pos.unwrap_or(0)]);
+        ensure!(pos.is_none(), &class_key("babai:results-differ"), "n = {}: the two versions return different reduced pairs (first difference at coefficient {}: F' {} vs {}, G' {} vs {}){}", n, pos.unwrap_or(0), af[pos.unwrap_or(0)], bfv[pos.unwrap_or(0)], ag[pos.unwrap_or(0)], bgv[pos.unwrap_or(0)], k_note);
     } else {
         st.count("both_err(iteration_cap)");
+    }
+    if beyond_i32 {
+        st.count("inputs_needing_a_multiplier_beyond_2^29");
     }
     // 2. the change is an integer-polynomial multiple of (f, g), for each version's own result
     for (name, rf, rg) in [("i32", &af, &ag), ("bigint", &bfv, &bgv)] {
@@ -350,7 +443,7 @@ fn check_case(c: &BabaiCase, st: &mut Stats) -> Result<(), Fail> {
 }
 
 const META: Meta = Meta {
-    rule: "proptest (f, g, F, G) for n = 2..1024: f, g with |coefficients| <= 127, not both zero (Gaussian at the key-generation width, uniform in +-6, uniform in +-127, sparse); (F, G) = (F0, G0) + k (f, g) with small (F0, G0) and k an integer polynomial of magnitude 0, 1..4 or 2^0..2^20 (halved until every coefficient is below 2^24), or unrelated uniform (F, G), or F = G = 0. Oracle: both versions return the same Ok/Err and, when Ok, the same pair; for each version's own result f (G - G') = g (F - F') exactly (i64 schoolbook) and F - F' = k f, G - G' = k g for one integer polynomial k recovered modulo a 62-bit NTT prime and verified exactly; when Ok, a second reduction is the identity. Err from both (the documented 1000-iteration cap, reached on exact rounding ties) counts as agreement. Non-trivial = n >= 8 and k != 0 (the input was not already reduced); distinct by hash.",
+    rule: "proptest (f, g, F, G) for n = 2..1024: f, g with |coefficients| <= 127, not both zero (Gaussian at the key-generation width, uniform in +-6, uniform in +-127, sparse, or an ill-conditioned pair f = p a, g = p b sharing a small factor p such as (1+X)^2 that nearly vanishes at roots of X^n+1); (F, G) = (F0, G0) + k (f, g) with (F0, G0) small or uniform below 2^8..2^22 and k an integer polynomial of magnitude 0, 1..4 or 2^0..2^20 (halved until every coefficient is below 2^24), or unrelated uniform (F, G), or F = G = 0. Oracle: both versions return the same Ok/Err and, when Ok, the same pair; for each version's own result f (G - G') = g (F - F') exactly (i64 schoolbook) and F - F' = k f, G - G' = k g for one integer polynomial k recovered modulo a 62-bit NTT prime and verified exactly; when Ok, a second reduction is the identity. Err from both (the documented 1000-iteration cap, reached on exact rounding ties) counts as agreement. Non-trivial = n >= 8 and k != 0 (the input was not already reduced); distinct by hash.",
     assumptions: &[
         "oracle: exact i64 schoolbook products; quotient recovery modulo primes p = 1 mod 2048 just below 2^62 found by search (deterministic Miller-Rabin)",
         "the functions document an iteration cap and return Result; their caller resamples on Err",
